@@ -245,6 +245,39 @@ def run(tier, seed):
             if o.get("file_after") not in ("valid", None):
                 drift.append({"history": _h(b["hist"]), "build": j + 1, "file_after": o.get("file_after")})
     cov["model_drift"] = {"cache_not_rewritten": len(drift), "notes": drift[:3]}
+    # ---- the command line in every cache state: what `sdp file --no-dump` / `-v` prints must be what it prints with a valid cache ------------
+    cli_in = "CREATE TABLE s.t (a int, b varchar(5) NOT NULL);\nCREATE SEQUENCE s.q START 5;\n"
+    cli_out = {}
+    for state in ("valid", "missing", "stale", "oldver"):
+        sc2 = make_scratch()
+        try:
+            tabp = os.path.join(sc2, "simple_ddl_parser", "parsetab.py")
+            if state == "missing":
+                os.unlink(tabp)
+            else:
+                with open(tabp, "w") as f:
+                    f.write(valid_text if state == "valid" else faults[state])
+            with open(os.path.join(sc2, "in.sql"), "w") as f:
+                f.write(cli_in)
+            obs = []
+            for extra in (["--no-dump"], ["-v", "-t", "out_v"]):
+                pr = py_in(sc2, "from simple_ddl_parser.cli import main; import sys; sys.argv = ['sdp', 'in.sql'] + %r; main()" % (extra,))
+                obs.append((pr.returncode, pr.stdout))
+                # (each call is a fresh interpreter; the first one heals the cache, so put the fault back for the second)
+                if state == "missing" and os.path.exists(tabp):
+                    os.unlink(tabp)
+                elif state in ("stale", "oldver"):
+                    with open(tabp, "w") as f:
+                        f.write(faults[state])
+            cli_out[state] = obs
+        finally:
+            shutil.rmtree(sc2, ignore_errors=True)
+    for state in ("missing", "stale", "oldver"):
+        for (rc0, o0), (rc1, o1), how in zip(cli_out["valid"], cli_out[state], ("--no-dump", "-v")):
+            if (rc0, o0) != (rc1, o1):
+                V.mismatch({"problem": "the command line prints something else when the table cache is " + state, "arguments": how, "exit_status": [rc0, rc1],
+                            "valid_cache_stdout_lines": len(o0.splitlines()), "stdout_lines": len(o1.splitlines()), "stdout_head": o1[:300]})
+    cov["cli_in_cache_states"] = {k: [len(o.splitlines()) for _, o in v] for k, v in cli_out.items()}
     rc = V.finish()
     cov.update({"states": states, "transitions": trans, "traces_validated_against_impl": len(uniq),
                 "builds_replayed": nb, "inputs_per_build": len(inputs),
